@@ -5,7 +5,7 @@ import os
 
 VERIF = os.path.dirname(os.path.dirname(os.path.abspath(__file__)))
 
-TB_COMMON = ("Trusted: Verus 0.2026.09.13 + Z3; the extractor (token scanner, rewrite rules R1-R12, per-run fidelity check); "
+TB_COMMON = ("Trusted: Verus 0.2026.09.13 + Z3; the extractor (token scanner, rewrite rules R1-R16, per-run fidelity check); "
              "assumed contracts on dependencies and intrinsics listed in contracts/ASSUMPTIONS.tsv; usize = 64 bit; no model of "
              "memory exhaustion; termination of exec loops not proved. ")
 
@@ -81,6 +81,9 @@ CLAIMED.update({
         tech="contract-based deductive verification (Verus) with a trait-level writer abstraction",
         ref="4/C29"),
 })
+
+from claims_more import MORE
+CLAIMED.update(MORE)
 
 NOT_APPLICABLE = {
     "C01": "the oracle is the Python clvm package; a contract cannot refer to it and a hand transcription would be a model of the oracle",
